@@ -444,6 +444,7 @@ var importAlias = map[string]string{
 }
 
 var ghostFieldTable map[string]map[string]string
+var stableGhost = map[string]bool{}
 
 var clauseKeywords = map[string]bool{
 	"requires": true, "ensures": true, "ensures-always": true, "modifies": true, "may-panic": true,
@@ -548,8 +549,13 @@ func (cs *Contracts) parseContractText(pkgPath, file string, text string, baseLi
 		case first == "ghostfield":
 			// ghostfield T.name kind
 			f := strings.Fields(t)
+			if len(f) == 4 && f[3] == "stable" {
+				// stable: only functions whose contract assigns the field (a ghost clause) change it
+				stableGhost[f[1][strings.Index(f[1], ".")+1:]] = true
+				f = f[:3]
+			}
 			if len(f) != 3 || !strings.Contains(f[1], ".") {
-				errf("ghostfield Type.name kind")
+				errf("ghostfield Type.name kind [stable]")
 				continue
 			}
 			i := strings.Index(f[1], ".")
